@@ -54,6 +54,7 @@ fn cmd_replay(args: &[String]) {
         .unwrap_or((0, 1));
     let limit = arg(args, "--limit").map(|s| s.parse::<usize>().unwrap()).unwrap_or(usize::MAX);
     let from = arg(args, "--from").map(|s| s.parse::<usize>().unwrap()).unwrap_or(0);
+    let upto = arg(args, "--upto").map(|s| s.parse::<usize>().unwrap()).unwrap_or(usize::MAX);
     // the index of the behaviour being replayed, for the runner to find after a crash
     let mut progress = arg(args, "--progress").map(|p| std::fs::OpenOptions::new().create(true).write(true).truncate(true).open(p).expect("progress"));
 
@@ -70,7 +71,7 @@ fn cmd_replay(args: &[String]) {
     let mut ops_total = 0usize;
     for (idx, line) in f.lines().enumerate() {
         let line = line.expect("read");
-        if line.trim().is_empty() || idx % shard_n != shard_i || idx < from {
+        if line.trim().is_empty() || idx % shard_n != shard_i || idx < from || idx > upto {
             continue;
         }
         if let Some(pf) = progress.as_mut() {
